@@ -93,12 +93,12 @@ def totality_key(run):
     return json.dumps(run[-1].get("inputs") or run[-1], sort_keys=True)[:2000]
 
 
-def totality(ctx, label, lines, header, kf_tag=None, batch=2000, jobs=JOBS):
+def totality(ctx, label, lines, header, kf_tag=None, batch=2000, jobs=JOBS, max_findings=5):
     ev, ip = drive(ctx, header, lines, label, batch=batch, jobs=jobs)
     annotate(ev, ip)
     n_inputs = sum(len(e["inputs"]) for e in ev if e["ev"] == "batch")
     other = [e for e in ev if e["ev"] not in ("batch", "reset")]
-    ok, bad = el.judge(ctx, MODULE, CFG, per_event_runs(ev), label, key=totality_key, nontrivial=lambda r: False, kf_tag=kf_tag, timeout=900, heap="8g")
+    ok, bad = el.judge(ctx, MODULE, CFG, per_event_runs(ev), label, key=totality_key, nontrivial=lambda r: False, kf_tag=kf_tag, timeout=900, heap="8g", max_findings=max_findings)
     ctx.cov["totality_inputs"] = ctx.cov.get("totality_inputs", 0) + n_inputs
     ctx.cov["timeouts_crashes"] = ctx.cov.get("timeouts_crashes", 0) + len(other)
     return ev, n_inputs, bad
@@ -141,7 +141,7 @@ def totality_long(ctx, header, n):
         others = [e for e in run if e["ev"] not in ("batch", "reset")]
         clean = all(o[0] in (0, 1) and o[4] in (0, 1) and o[1] == 0 and o[5] == 0 for o in obs)
         return "lenient-disagrees-with-strict" if clean and not others else None
-    ev, k, bad = totality(ctx, "long", lines + reps, header, batch=200, kf_tag=only_disagreements)
+    ev, k, bad = totality(ctx, "long", lines + reps, header, batch=50, kf_tag=only_disagreements, max_findings=80)
     ctx.cov["totality_long"] = {"random_strings_6_to_30_tokens": len(lines), "repetition_inputs": len(reps), "rejected_batches": bad}
     if reps:
         ctx.sample({"kind": "repetition input pre^n mid post^n (token indices)", "input": reps[0]})
